@@ -9,12 +9,12 @@ from vlib import sfgen
 
 PROP = "C05"
 LEVEL = "proof"
-COQ_DIRS = ["C05", "FockAxes", "Bosonic"]
-COQ_TARGETS = ["Gen/GaussCirc.vo", "C05/GaussSpectators.vo", "Base/GaussAlloc.vo", "C05/GaussAllocProofs.vo"] + list(fa.COQ_TARGETS) + list(bm.COQ_TARGETS)
+COQ_DIRS = ["C05", "FockAxes", "Bosonic", "C07"]
+COQ_TARGETS = ["Gen/GaussCirc.vo", "Base/MatOps.vo", "Gen/GaussMat.vo", "C07/GaussPhysical.vo", "C07/GaussPassive.vo", "C01/GaussReadout.vo", "C05/GaussSpectators.vo", "Base/GaussAlloc.vo", "C05/GaussAllocProofs.vo"] + list(fa.COQ_TARGETS) + list(bm.COQ_TARGETS)
 PROPERTIES_FILE = "Properties/C05.v"
 EXTRA_PROPERTIES_FILES = [fa.PROPERTIES_FILE, bm.PROPERTIES_FILE]
 ALLOWED_AXIOMS = set()
-TRANSLATORS = [gc.translate_gausscirc]
+TRANSLATORS = [gc.translate_gausscirc, gc.translate_gaussmat_fn]
 RULE = ("(a) generated-function correspondence: random (method, register size 1-5, target position, parameters incl. 0 and "
         "multiples of pi/2, Hermitian or arbitrary complex N/M) — non-trivial when >= 2 modes and a target index > 0; "
         "(b) spectator search: weak correlated displaced mixed prior state on n=2..4 modes, one op on random ordered targets, "
@@ -43,6 +43,14 @@ def correspondence(ctx):
     if bad:
         ctx.disagreement("corr:gaussianmodes:" + bad[0][0], "hand model of GaussianModes.%s disagrees with the implementation (n = %d)" % (bad[0][0], bad[0][1]),
                          {"check": "alloc", "kind": bad[0][0], "n": bad[0][1]})
+    bad = gc.correspondence_apply_u(ctx, ctx.budget(60, 600), tag="c05au")
+    for c in (bad or [])[:3]:
+        small = {"kind": c["kind"], "n": c["n"], "U": [[[z.real, z.imag] for z in r] for r in np.array(c["U"])]}
+        sig = apply_u_spect_violation(c)
+        if sig:
+            ctx.counterexample("gaussianmodes:apply_u:" + sig, "GaussianModes.apply_u with U = identity outside the targets changes an entry among the other modes", {"check": "apply_u", "case": small})
+        else:
+            ctx.disagreement("corr:gaussmat:apply_u", "generated model of GaussianModes.apply_u disagrees with the implementation", {"check": "apply_u", "case": small})
     failing = gc.correspondence_generated(ctx, ctx.budget(240, 3000), tag="c05")
     if failing is None:
         return
@@ -58,6 +66,25 @@ def correspondence(ctx):
                                {"check": "gm", "case": small})
         else:
             ctx.disagreement("corr:gausscirc:" + c["method"], "generated model of GaussianModes.%s disagrees with the implementation" % c["method"], {"check": "gm", "case": small})
+
+
+def apply_u_spect_violation(c):
+    """U is the identity on the rows of the non-target modes: entries of N, M, mean among those modes must not change."""
+    U = np.array(c["U"])
+    n = c["n"]
+    spect = [i for i in range(n) if np.allclose(U[i], np.eye(n)[i], atol=0) and np.allclose(U[:, i], np.eye(n)[i], atol=0)]
+    if not spect or len(spect) == n:
+        return None
+    N1, M1, a1 = (np.array(x) for x in c["out"])
+    N0, M0, a0 = np.array(c["N"]), np.array(c["M"]), np.array(c["a"])
+    ix = np.ix_(spect, spect)
+    if np.abs(a1[spect] - a0[spect]).max() > 1e-12:
+        return "spectator-mean-changed"
+    if np.abs(N1[ix] - N0[ix]).max() > 1e-12:
+        return "spectator-N-changed"
+    if np.abs(M1[ix] - M0[ix]).max() > 1e-12:
+        return "spectator-M-changed"
+    return None
 
 
 def spect_violation_gm(c):
@@ -315,7 +342,7 @@ def eval_post_spec(d):
             spec = {"n": n, "cmds": list(pre) + [["Del", [], [m], False] for m in deleted] + [mcmd]}
             mr, cr = _ref(spec)
             m1, c1 = bc.gauss_obs(st)
-            if max(np.abs(m1 - mr).max(), np.abs(c1 - cr).max()) > 2e-5:
+            if max(np.abs(m1 - mr).max(), np.abs(c1 - cr).max()) > 2e-5 * max(1.0, float(np.abs(cr).max())):
                 v = "rest-not-conditional-state"
         return "measure:%s:%s:%s" % (backend.split("-")[0], kind, v) if v else None
     if kind == "fock":
